@@ -28,6 +28,7 @@ func runC17(c *Ctx) {
 	defer c11ComparatorKeys(c, "C17-R5")
 	defer c11NestedDetailsSorted(c, "C17-R5")
 	defer c17ListFilters(c)
+	defer c17ComparisonHasNoMemory(c)
 	defer c17CommentTextAndPlace(c)
 	defer c17ErrorsEndTheRun(c, "C17-R4")
 	defer c17FirstNoteOnly(c)
@@ -540,6 +541,30 @@ func c17ListFilters(c *Ctx) {
 			}
 			return true
 		})
+		// what may decide a skip at all: the kind of note (system note, general comment without a position,
+		// path outside the change) and its author — never its state (resolved, outdated, collapsed, minimised):
+		// a comment a reviewer resolved is still the comment pint wrote, and forgetting it posts it again
+		bad2 := ""
+		allowed := map[string]bool{"System": true, "Author": true, "ID": true, "userID": true, "Position": true, "User": true, "Login": true, "Path": true, "GetPath": true, "GetUser": true, "GetLogin": true, "GetID": true, "Anchor": true, "Inline": true, "Severity": true, "Comment": true, "Type": true, "Action": true, "Name": true, "Slug": true, "Line": true, "GetLine": true, "Body": true, "GetBody": true, "Text": true}
+		ast.Inspect(m.Decl.Body, func(nd ast.Node) bool {
+			br, ok := nd.(*ast.BranchStmt)
+			if !ok || (br.Tok != token.CONTINUE && br.Tok != token.GOTO) {
+				return true
+			}
+			for _, a := range lexicalGuards(pm, br, m.Decl.Body) {
+				ast.Inspect(a.E, func(x ast.Node) bool {
+					if y, isSel := x.(*ast.SelectorExpr); isSel {
+						if _, isPkg := info.Uses[identOf(y.X)].(*types.PkgName); !isPkg && !allowed[y.Sel.Name] {
+							bad2 = y.Sel.Name + " in `" + exprStr(a.E) + "`"
+						}
+					}
+					return true
+				})
+			}
+			return true
+		})
+		c.Check(bad2 == "", "C17-R3", typeQName(tn.Type())+".List:existing comments are skipped by kind and author only", m.Decl.Pos(), "no skip by state",
+			"List() decides a skip by "+bad2+": a comment pint wrote is left out of the existing ones because of its state, so the same comment is posted again on the next run")
 		c.Check(bad == "", "C17-R3", typeQName(tn.Type())+".List:existing comments are not filtered by commit", m.Decl.Pos(), "skips decided by comment kind only",
 			"List() skips existing comments under `"+bad+"`: comments pint made for an earlier commit of the same pull request are no longer recognised, so every run after a push posts them again")
 	}
@@ -883,4 +908,70 @@ func c17CommentTextAndPlace(c *Ctx) {
 		c.Check(okB && nRet >= 1, "C17-R3", "getDiffForPath:a comment goes to the diff with that NEW path", gd.Decl.Pos(), "NewPath == path",
 			"the diff for a comment is chosen under `"+got+"`: a file that reuses the old name of a renamed file gets its comment attached to the renamed file, the discussion is listed back under the other path, never matches, and is deleted and re-created on every run")
 	}
+}
+
+// c17ComparisonHasNoMemory: whether an existing comment IS a pending one is decided by IsEqual from the two
+// comments alone. IsEqual and what it calls inside the reporter package store nothing: no element of a map
+// or slice that hangs off a field, no field. (A memo of the line translation keyed by path and line gives a
+// comment anchored before the change the place of one anchored after it: the comment is not recognised
+// where it stands and is posted again.)
+func c17ComparisonHasNoMemory(c *Ctx) {
+	R := "C17-R3"
+	p := c.P
+	ct := p.LookupType("internal/reporter", "Commenter")
+	if ct == nil {
+		return
+	}
+	iface, _ := ct.Type().Underlying().(*types.Interface)
+	if iface == nil {
+		return
+	}
+	n := 0
+	for _, tn := range p.implementers(iface) {
+		m := p.methodOn(typeQName(tn.Type()), "IsEqual")
+		if m == nil || m.Decl.Body == nil {
+			continue
+		}
+		n++
+		bad := ""
+		for fi := range reachFuncs(p, m) {
+			if relPkg(fi.Pkg.PkgPath) != "internal/reporter" || p.IsTestFile(fi.Decl.Pos()) {
+				continue
+			}
+			info := fi.Pkg.TypesInfo
+			inspectNoLit(fi.Decl.Body, func(nd ast.Node) bool {
+				as, ok := nd.(*ast.AssignStmt)
+				if !ok {
+					return true
+				}
+				for _, l := range as.Lhs {
+					l = ast.Unparen(l)
+					if ix, isIx := l.(*ast.IndexExpr); isIx {
+						if _, isField := ast.Unparen(ix.X).(*ast.SelectorExpr); isField {
+							bad = "`" + exprStr(l) + "` in " + shortFuncName(fi.Name) + " at " + p.Pos(as.Pos())
+						}
+					}
+					if sel, isSel := l.(*ast.SelectorExpr); isSel {
+						if root, _, ok := accessPath(info, sel); ok && root != nil {
+							// a field of something that came in from outside (receiver, parameter, dst)
+							sig := fi.Obj.Type().(*types.Signature)
+							isParam := sig.Recv() != nil && types.Object(sig.Recv()) == root
+							for i := 0; i < sig.Params().Len(); i++ {
+								if types.Object(sig.Params().At(i)) == root {
+									isParam = true
+								}
+							}
+							if _, isPtr := root.Type().Underlying().(*types.Pointer); isParam && isPtr {
+								bad = "`" + exprStr(l) + "` in " + shortFuncName(fi.Name) + " at " + p.Pos(as.Pos())
+							}
+						}
+					}
+				}
+				return true
+			})
+		}
+		c.Check(bad == "", R, typeQName(tn.Type())+".IsEqual:the comparison stores nothing", m.Decl.Pos(), "pure",
+			"IsEqual (or a function it calls) stores "+bad+": the answer for one pair of comments depends on the pairs compared before it, so a comment that is already there may not be recognised and is posted again")
+	}
+	c.Check(n >= 2, R, "IsEqual implementations enumerated", ct.Pos(), itoa(n), "fewer than two Commenter.IsEqual implementations")
 }
